@@ -100,6 +100,20 @@ Theorem C17_lookup_answers_loaded :
 Proof. exact lookup_answers_loaded. Qed.
 Print Assumptions C17_lookup_answers_loaded.
 
+(* every scan is bracketed by setgrent() ... endgrent(): glibc keeps ONE group stream — setgrent() opens the file only
+   when the stream is not open, otherwise it rewinds the file it has, even if that one has since been replaced by
+   rename() —, so a refresh sees the CURRENT file only if the previous scan closed the stream.  Along every run the
+   stream (EOpen/EClose events) is open exactly between a refresh's scan and its second critical section, on the success
+   and on the error path of the build; whenever no refresh is running it is closed.  (This is what lets XScan read
+   x_w s, the databases as they are at the scan; the harnesses' group stream behaves like glibc's, and a refresh that
+   returns with the stream open is reported.) *)
+Theorem C17_scan_bracketed :
+  forall (interval dostat : Z) (w0 : world) (tr : list glabel) (s : gt) (evs : list gev),
+  gt_exec VRepo (gt_init interval dostat w0) tr = Some (s, evs) ->
+  stream_after false evs = stream_open s /\ (x_phase s = PIdle -> stream_after false evs = false).
+Proof. exact scan_bracketed. Qed.
+Print Assumptions C17_scan_bracketed.
+
 (* REFUTED variant of the code (not the code as it is): a `timer_cancel (gids->timer)` before
    `gids->timer = 0` at the end of _gids_map_update.  With refreshes on SIGHUP only (interval 0): the
    start-up refresh is running and has read the databases; /etc/group is edited (mtime newer than the load);
